@@ -131,6 +131,14 @@ def gen_rounds(seed, tier, run):
             out.append(f"repeat {arr(sh)} l2 z{ax}")
             other = list(sh); other[ax] = rng.choice([1, 2, 5])
             out.append(f"append {arr(sh)} {arr(other, base=500)} z{ax}")
+    # count vectors of EVERY length against composite axis extents (seeded change C09k: a count list whose length
+    # divides the extent was cycled instead of refused)
+    for sh in ([4], [6], [2, 4], [6, 2], [2, 3, 4], [2, 6, 2], [8], [9], [3, 9]):
+        for ax in range(len(sh)):
+            for ln in range(0, sh[ax] + 3):
+                out.append(f"repeat {arr(sh)} {lst([1 + (k % 3) for k in range(ln)])} z{ax}")
+        for ln in (2, 3, 4, 6, prod(sh) // 2, prod(sh)):
+            out.append(f"repeat {arr(sh)} {lst([1 + (k % 2) for k in range(ln)])} n")
     for L in (9, 17, 33, 64, 100):
         for _ in range(6):
             v = [rng.choice([0, 0, 1, 2]) for _ in range(L)]
